@@ -258,3 +258,31 @@ func TestReplay_DisposableCreatedWhileScopeCloses(t *testing.T) {
 		}
 	}
 }
+
+// provider.CreateScope#post[a_scope_closed_during_its_creation_is_not_tracked]: a scope that is already closed when its creation
+// finishes (an initializer closed it) must not stay in the provider's or the parent's table.
+func TestReplay_ScopeClosedDuringItsOwnCreation(t *testing.T) {
+	c := NewCollection()
+	c.AddScoped(func(s Scope) { s.Close() })
+	pv, err := c.Build()
+	if err != nil {
+		t.Fatal(err)
+	}
+	defer pv.Close()
+	p := pv.(*provider)
+	parent, err := pv.CreateScope(context.Background())
+	if err == nil && parent != nil {
+		parent.Close()
+	}
+	for i := 0; i < 20; i++ {
+		if s, err := pv.CreateScope(context.Background()); err == nil && s != nil {
+			s.Close()
+		}
+	}
+	p.scopesMu.Lock()
+	n := len(p.scopes)
+	p.scopesMu.Unlock()
+	if n != 0 {
+		t.Errorf("REPLAY-CONFIRMED provider.CreateScope#post[a_scope_closed_during_its_creation_is_not_tracked]: %d closed scopes are still in the provider's table after 21 create/close cycles whose initializer closes the scope", n)
+	}
+}
